@@ -1,8 +1,9 @@
 (* C06 — persisted event logs are faithful: storage, tree and order agree.
    Model: model/EventLog.v (record level, both backends; the DB's shared table explicit).
    Inv l  :=  in-memory tree = commits of the stored records, in order. *)
-From Coq Require Import List NArith.
+From Coq Require Import List NArith Lia.
 From SosModel Require Import model.Merkle model.EventLog proofs.Merkle_Lemmas proofs.EventLog_Lemmas.
+From SosModel Require Import base.Bytes model.Formats model.Crash proofs.Formats_Lemmas proofs.Crash_Lemmas.
 Import ListNotations.
 
 Section C06.
@@ -89,6 +90,15 @@ Example C06_nonvacuous_rewind :
   = RwOk (mkElog [mkErec 1 10 0; mkErec 2 20 0; mkErec 3 10 0] [10; 20; 10]) [mkErec 4 30 0].
 Proof. reflexivity. Qed.
 
+(* byte level, file-system backend: on a file that is header ++ whole well-formed records the
+   forward iteration (load_tree, streams) yields the commits in append order and the reverse
+   iteration (rewind, reverse streams) yields exactly their mirror *)
+Theorem C06_file_reverse_mirrors_forward ident ver rs : length ident = 4 -> Forall wf_record rs ->
+  let pre := ident ++ ver in
+  open_log ident (lenb pre) (pre ++ flat rs) = Some (map r_commit rs) /\
+  open_log_rev (lenb pre) (pre ++ flat rs) = Some (rev (map r_commit rs)).
+Proof. exact (file_reverse_mirrors_forward ident ver rs). Qed.
+
 Print Assumptions C06_reload_tree.
 Print Assumptions C06_inv_empty.
 Print Assumptions C06_inv_apply.
@@ -105,3 +115,4 @@ Print Assumptions C06_db_clear_refines.
 Print Assumptions C06_isolation_insert.
 Print Assumptions C06_isolation_rewind.
 Print Assumptions C06_isolation_clear.
+Print Assumptions C06_file_reverse_mirrors_forward.
